@@ -110,6 +110,164 @@ def report(ctx, r, per_clause):
                        f'cfg={c} script={r["script"]}')
 
 
+TRACE_CONSTS = dict(MaxN=1, Blocks='{1}', MaxReqs='{1}', Ops='{}',
+                    SparseSet='{}', MaxAns=1, AllowErr='TRUE',
+                    ByOffset='TRUE', Continue='TRUE', ExtendDst='TRUE')
+TRACE_DIAG = ['DiagDone', 'DiagNewIssued', 'DiagRaised', 'DiagData']
+TRACE_KW = dict(progress='TraceProgress', report='TraceReport')
+
+
+def trace_validation(ctx, sftp_io, quick):
+    """Code -> spec: executions recorded from naturally scheduled transfers
+    (real client; asyncssh's own SFTP server with seeded delays / short
+    reads / errors / segmentation, and the raw peer answering every request
+    from its own task, i.e. out of order) are validated by TLC against
+    SftpIO.tla (specs/SftpIO/SftpIOTrace.tla)."""
+    import copy
+    n = 56 if quick else 1200
+    recs = []
+    stats = {'out_of_order': 0, 'batches>1': 0, 'untraced': 0, 'skipped': 0}
+    for i in range(n):
+        seed = ctx.seed * 100003 + i
+        server = 'real' if i % 2 else 'scripted'
+        r = sftp_io.record_natural(seed, server)
+        if r.get('skipped'):
+            stats['skipped'] += 1
+            continue
+        c = r['cfg']
+        ctx.count(('natural', server, json.dumps(c, sort_keys=True),
+                   r['variant'], r['U']), nontrivial=r.get('nreq', 0) > 2)
+        key = (server, c['op'], r['outcome'])
+        stats[str(key)] = stats.get(str(key), 0) + 1
+        for clause in sorted({cl for cl, _ in r['l1']}):
+            text = '; '.join(t for cl, t in r['l1'] if cl == clause)
+            ctx.violation({'module': 'SftpIOTrace', 'clause': clause,
+                           'server': server, 'cfg': c, 'seed': seed},
+                          f'{clause} on a naturally scheduled transfer: '
+                          f'{text} [server={server} cfg={c} U={r["U"]} '
+                          f'variant={r["variant"]} seed={seed}]',
+                          replay={'kind': 'natural', 'seed': seed,
+                                  'server': server})
+        for pr in r['problems']:
+            ctx.divergence(f'natural transfer seed={seed} server={server} '
+                           f'cfg={c}: recording inconsistent: {pr}')
+        for e in r.get('loop_exceptions') or []:
+            ctx.divergence(f'natural transfer seed={seed} server={server}: '
+                           f'exception reached the event loop: {e}')
+        if r.get('untraced'):
+            stats['untraced'] += 1
+        if r['trace'] is None or r['problems']:
+            continue
+        ans = [x for e in r['trace']['ev'] if e['e'] == 'ans'
+               for x in e['a']]
+        fresh = 'wr' if c['op'] in ('write', 'put') else 'rd'
+        offs = [x['off'] for x in ans if x['ph'] == fresh]
+        r['ooo'] = any(b < a for a, b in zip(offs, offs[1:]))
+        stats['out_of_order'] += r['ooo']
+        stats['batches>1'] += any(e['e'] == 'ans' and len(e['a']) > 1
+                                  for e in r['trace']['ev'])
+        recs.append(r)
+    sftp_io.drop_world()
+    sftp_io.drop_natural_world()
+    total_ev = 0
+    for b in range(0, len(recs), 400):
+        batch = recs[b:b + 400]
+        res, verdicts = tlc.validate_traces(
+            SPEC, 'SftpIOTrace', [r['trace'] for r in batch],
+            f'c12_tr_{b}', constants=TRACE_CONSTS, diag=TRACE_DIAG,
+            **TRACE_KW)
+        ctx.add_tlc(f'SftpIOTrace batch {b}', res)
+        if res.violation:
+            ctx.violation({'module': 'SftpIOTrace',
+                           'invariant': res.violation},
+                          f'invariant {res.violation} fails on a recorded '
+                          f'execution: ' + res.output[-1800:],
+                          replay={'kind': 'natural-batch', 'seeds':
+                                  [r['seed'] for r in batch]})
+            continue
+        if res.error:
+            raise MachineryError(f'SftpIOTrace: {res.error}\n' +
+                                 res.output[-3000:])
+        for i, v in sorted(verdicts.items()):
+            total_ev += v['matched']
+            if not v['accepted']:
+                r = batch[i]
+                ctx.divergence(
+                    f'recorded execution seed={r["seed"]} '
+                    f'server={r["server"]} cfg={r["cfg"]} U={r["U"]} '
+                    f'variant={r["variant"]} outcome={r["outcome"]} is not '
+                    f'a behaviour of SftpIO.tla: {v["diagnosis"]}')
+    ctx.coverage['recorded_traces_validated_by_tlc'] = len(recs)
+    ctx.coverage['recorded_events_matched'] = total_ev
+    ctx.notes.append(f'natural transfers: {stats}')
+    ctx.traces_validated(len(recs))
+    # ---- binding controls: corrupted copies must be rejected ----
+    def pick(pred):
+        for r in recs:
+            if pred(r):
+                return copy.deepcopy(r['trace'])
+        return None
+
+    par = lambda r: r['cfg']['size'] > 2 * r['cfg']['B'] and \
+        sum(e['e'] == 'ans' for e in r['trace']['ev']) >= 2
+    good = {
+        'off': pick(lambda r: par(r)),
+        'drop': pick(lambda r: par(r) and r['outcome'] == 'returned'),
+        'block': pick(lambda r: par(r) and r['cfg']['op'] != 'write'),
+        'raised': pick(lambda r: r['outcome'] == 'returned'),
+        'data': pick(lambda r: r['cfg']['op'] == 'read' and
+                     r['outcome'] == 'returned' and
+                     len(r['trace']['ev'][-1]['data']) >= 2),
+    }
+    if any(v is None for v in good.values()):
+        if ctx.violations or ctx.divergences:
+            ctx.notes.append('binding controls skipped: recorded transfers '
+                             'already show violations / divergences')
+            return
+        raise MachineryError(f'no recorded trace for the binding controls '
+                             f'{[k for k, v in good.items() if v is None]}')
+    bad = []
+    t = good['off']
+    e = [e for e in t['ev'] if e['e'] == 'ans' and e['a']][0]
+    e['a'][0]['off'] += 1
+    bad.append(('logged offset of an answered request shifted', t))
+    t = good['drop']
+    i = [k for k, e in enumerate(t['ev']) if e['e'] == 'ans'][0]
+    del t['ev'][i]
+    bad.append(('one batch of answers removed', t))
+    t = good['block']
+    t['c']['B'] += 1
+    bad.append(('block size constant off by one', t))
+    t = good['raised']
+    t['ev'][-1]['raised'] = True
+    bad.append(('outcome flipped to "raised"', t))
+    t = good['data']
+    d = t['ev'][-1]['data']
+    d[0], d[1] = d[1], d[0]
+    bad.append(('two bytes of the returned data swapped', t))
+    res, verdicts = tlc.validate_traces(SPEC, 'SftpIOTrace',
+                                        [b[1] for b in bad], 'c12_tr_neg',
+                                        constants=TRACE_CONSTS,
+                                        invariants=(), **TRACE_KW)
+    for i, (what, _) in enumerate(bad):
+        ctx.require(i in verdicts and not verdicts[i]['accepted'],
+                    f'binding control "{what}" was accepted by SftpIOTrace')
+    # the wrong reassembly rule must not explain out-of-order recordings
+    ooo = [r['trace'] for r in recs if r.get('ooo') and
+           r['cfg']['op'] == 'read' and r['outcome'] == 'returned'][:6]
+    if ooo:
+        res, verdicts = tlc.validate_traces(
+            SPEC, 'SftpIOTrace', ooo, 'c12_tr_sens',
+            constants=dict(TRACE_CONSTS, ByOffset='FALSE'), invariants=(),
+            **TRACE_KW)
+        ctx.require(verdicts and not any(v['accepted']
+                                         for v in verdicts.values()),
+                    'reassembly by arrival order accepted an out-of-order '
+                    'recorded read')
+    elif not (ctx.violations or ctx.divergences):
+        raise MachineryError('no out-of-order read was recorded')
+
+
 def main(ctx):
     from harness.drivers import sftp_io
     quick = ctx.tier == 'quick'
@@ -120,6 +278,17 @@ def main(ctx):
     if ctx.replay_path:
         with open(ctx.replay_path) as f:
             rp = json.load(f)['replay']
+        if rp.get('kind') == 'natural':
+            r = sftp_io.record_natural(rp['seed'], rp['server'])
+            print('natural:', r['cfg'], r['outcome'], r['l1'])
+            ctx.count(('replay', ctx.replay_path))
+            for clause, text in r['l1']:
+                ctx.violation({'module': 'SftpIOTrace', 'clause': clause,
+                               'server': rp['server'], 'cfg': r['cfg'],
+                               'seed': rp['seed']}, text, replay=rp)
+            sftp_io.drop_world()
+            sftp_io.drop_natural_world()
+            return
         script = [tuple(s) if s[0] == 'start' else
                   ('ans', [tuple(a) for a in s[1]]) for s in rp['script']]
         r = sftp_io.replay(rp['cfg'], script, None, U=rp['U'],
@@ -278,7 +447,16 @@ def main(ctx):
                     outcomes.get((op, 'raised'), 0) > 0,
                     f'replay did not see both outcomes for {op}: {outcomes}')
 
+    # ---- 3. code -> spec: recorded natural transfers validated by TLC ------
+    trace_validation(ctx, sftp_io, quick)
+
     ctx.assumptions += [
+        'recorded transfers: linearization points are taken in the client by '
+        'wrappers installed from the driver (SFTPClientHandler.read/write '
+        'call and return inside the block task; return of asyncio.wait in '
+        '_SFTPParallelIO.iter); asyncssh\'s own SFTP server processes '
+        'requests one at a time, so out-of-order completion comes from the '
+        'raw peer answering each request from its own task',
         'the SFTP server is consistent: it serves a fixed byte string and '
         'answers READ with a non-empty prefix of the requested range, EOF or '
         'an error; it acknowledges or refuses WRITE',
